@@ -259,7 +259,7 @@ impl<'a> Sess<'a> {
     /// fresh manager, optional history noise, then the program
     pub fn start(prog: &'a Program, seed: u64, thorough: bool, budget: usize, noise_n: usize, rep: &mut Report) -> Sess<'a> {
         let mut rng = Rng::derive(seed, 0x5E55, prog.ops.len() as u64);
-        let mut m = ReManager::new();
+        let mut m = if rng.chance(1, 4) { ReManager::default() } else { ReManager::new() };
         if noise_n > 0 && rng.chance(1, 2) {
             noise(&mut m, &mut rng, &[], noise_n, 300);
         }
